@@ -473,6 +473,7 @@ SHAPES_BY_SIZE = {
     4: [[4], [2, 2], [1, 4], [4, 1], [2, 1, 2]],
 }
 SHAPES = [s for v in SHAPES_BY_SIZE.values() for s in v]
+SHAPES.sort(key=lambda sh: (sh != [], len(sh) == 3, 0 in sh))  # Hypothesis favours the ends: 0-d first, 3-d / empty last
 LAYOUTS = ["c", "c", "f", "view", "strided", "rev"]
 TYPECODES = {"b": [0, 1, 2, 3], "B": [0, 1, 2, 3], "h": [0, 1, 2, 3], "i": [0, 1, 2, 3], "q": [0, 1, 2, 3, 2**40],
              "f": QUARTERS, "d": QUARTERS}  # fmt: skip
